@@ -106,8 +106,8 @@ namespace cppcms {
 					page *p=(page *)malloc(size + sizeof(page));
 					if(!p)
 						throw std::bad_alloc();
-					p->next = pages_->next;
-					pages_->next = p;
+					p->next = pages_;
+					pages_ = p;
 					return p->data;
 				}
 				if(size > free_space_) {
